@@ -6,6 +6,7 @@ import (
 	"regexp"
 	"strings"
 
+	"github.com/glycerine/zygomys/v9/zygo"
 	"verif/harness/lib"
 )
 
@@ -130,6 +131,31 @@ func (r *Runner) ListingF1(src string) string {
 		env.Clear()
 		return "COMPILE-ERROR"
 	}
+	out := normListing(env.VerifMainFunc().VerifCode())
+	env.Clear()
+	return out
+}
+
+// ListingFn evaluates src (a single defn of the function name) and returns the normalised listing
+// of the function's own code (generator.go:buildSexpFun).
+func (r *Runner) ListingFn(src, name string) string {
+	r.reset()
+	env := r.Env
+	if res := lib.Eval(env, src, 10000); res.Class != lib.OutValue {
+		return "COMPILE-ERROR"
+	}
+	obj, ok := env.FindObject(name)
+	if !ok {
+		return "NO-FUNCTION"
+	}
+	fn, isFn := obj.(*zygo.SexpFunction)
+	if !isFn {
+		return "NO-FUNCTION"
+	}
+	return normListing(fn.VerifCode())
+}
+
+func normListing(code []zygo.Instruction) string {
 	names := map[string]string{}
 	norm := func(s string) string {
 		return reLoopName.ReplaceAllStringFunc(s, func(n string) string {
@@ -140,7 +166,7 @@ func (r *Runner) ListingF1(src string) string {
 		})
 	}
 	var parts []string
-	for _, in := range env.VerifMainFunc().VerifCode() {
+	for _, in := range code {
 		s := strings.TrimRight(in.InstrString(), " ")
 		f := strings.Fields(s)
 		switch {
@@ -161,7 +187,6 @@ func (r *Runner) ListingF1(src string) string {
 		}
 		parts = append(parts, s)
 	}
-	env.Clear()
 	return strings.Join(parts, ";")
 }
 
